@@ -39,6 +39,7 @@ type Reply struct {
 	Updates []*api.ContainerUpdate
 	Err     string // non-empty: handler returns this error
 	Hang    bool   // handler never returns (until teardown)
+	SleepMs int    // the handler takes this much simulated time before it answers
 }
 
 // Script decides the reply of plugin p to (rpc, token).
@@ -296,6 +297,9 @@ func (p *Plug) enter(rpc, token string, en *Entry) *Reply {
 	if r.Hang {
 		<-h.E.Hung()
 		return &Reply{}
+	}
+	if r.SleepMs > 0 {
+		time.Sleep(time.Duration(r.SleepMs) * time.Millisecond)
 	}
 	h.S.ParkOwned("gate:"+p.Name+":"+rpc+":"+token, "plug:"+p.Name, nil)
 	h.mu.Lock()
